@@ -301,8 +301,72 @@ fn perturb_templates(t: &[u8], rep: &mut Report) {
             }
         }
     }
+    // every position replaced by (and every gap filled with) a multi-byte sequence that some Unicode-aware notion of
+    // "digit", "letter", "space" or "line end" would accept: the format is ASCII, so every one of these is malformed
+    for crlf in [false, true] {
+        let mut base = t.to_vec();
+        if crlf {
+            base.extend_from_slice(b"\r\n");
+        }
+        for p in 0..base.len() {
+            for s in MULTIBYTE {
+                let mut b = base[..p].to_vec();
+                b.extend_from_slice(s);
+                b.extend_from_slice(&base[p + 1..]);
+                check_string(&b, "multibyte_substitution", rep);
+                let mut b = base[..p].to_vec();
+                b.extend_from_slice(s);
+                b.extend_from_slice(&base[p..]);
+                check_string(&b, "multibyte_substitution", rep);
+                rep.add("multibyte_substitutions", 2);
+            }
+        }
+        // every hex digit replaced at once
+        for s in MULTIBYTE {
+            let mut b = vec![];
+            for (i, c) in base.iter().enumerate() {
+                if i > 0 && c.is_ascii_hexdigit() {
+                    b.extend_from_slice(s);
+                } else {
+                    b.push(*c);
+                }
+            }
+            check_string(&b, "multibyte_substitution", rep);
+        }
+    }
     let _ = n;
 }
+
+/// UTF-8 encodings of non-ASCII decimal digits, digit-like and letter-like characters, case-folding partners, spaces
+/// and line separators; plus a few ill-formed sequences.
+const MULTIBYTE: [&[u8]; 26] = [
+    b"\xD9\xA0",         // U+0660 ARABIC-INDIC DIGIT ZERO
+    b"\xD9\xA9",         // U+0669 ARABIC-INDIC DIGIT NINE
+    b"\xDB\xB1",         // U+06F1 EXTENDED ARABIC-INDIC DIGIT ONE
+    b"\xE0\xA5\xA6",     // U+0966 DEVANAGARI DIGIT ZERO
+    b"\xEF\xBC\x90",     // U+FF10 FULLWIDTH DIGIT ZERO
+    b"\xEF\xBC\x99",     // U+FF19 FULLWIDTH DIGIT NINE
+    b"\xEF\xBC\xA1",     // U+FF21 FULLWIDTH LATIN CAPITAL LETTER A
+    b"\xEF\xBD\x86",     // U+FF46 FULLWIDTH LATIN SMALL LETTER F
+    b"\xF0\x9D\x9F\x8E", // U+1D7CE MATHEMATICAL BOLD DIGIT ZERO
+    b"\xC2\xB2",         // U+00B2 SUPERSCRIPT TWO
+    b"\xE2\x85\xA0",     // U+2160 ROMAN NUMERAL ONE
+    b"\xD0\x90",         // U+0410 CYRILLIC CAPITAL LETTER A
+    b"\xCE\x91",         // U+0391 GREEK CAPITAL LETTER ALPHA
+    b"\xE2\x84\xAA",     // U+212A KELVIN SIGN
+    b"\xC5\xBF",         // U+017F LATIN SMALL LETTER LONG S
+    b"\xEF\xBC\x9A",     // U+FF1A FULLWIDTH COLON
+    b"\xE2\x80\xA8",     // U+2028 LINE SEPARATOR
+    b"\xE2\x80\xA9",     // U+2029 PARAGRAPH SEPARATOR
+    b"\xC2\x85",         // U+0085 NEXT LINE
+    b"\xC2\xA0",         // U+00A0 NO-BREAK SPACE
+    b"\xE3\x80\x80",     // U+3000 IDEOGRAPHIC SPACE
+    b"\xEF\xBB\xBF",     // U+FEFF BYTE ORDER MARK
+    b"\xC0\xB0",         // overlong encoding of '0'
+    b"\xED\xA0\x80",     // encoded surrogate
+    b"\xF4\x90\x80\x80", // beyond U+10FFFF
+    b"\xD9",             // truncated sequence
+];
 
 fn hexpair(b: u8, rng: &mut Rng) -> [u8; 2] {
     let up = b"0123456789ABCDEF";
@@ -547,6 +611,7 @@ pub fn run(ctx: &Ctx) -> Outcome {
     let floors = vec![
         floor("alphabet-13 enumeration complete (169 prefixes)", report.get("alpha13_prefixes_completed") == 169, report.get("alpha13_prefixes_completed")),
         floor("alphabet-5 enumeration complete (125 prefixes)", report.get("alpha5_prefixes_completed") == 125, report.get("alpha5_prefixes_completed")),
+        floor("multi-byte (non-ASCII) sequences substituted and inserted at every position of every template", report.get("multibyte_substitutions") >= 4 * 2 * 26 * 20, report.get("multibyte_substitutions")),
         floor("all templates perturbed", report.get("templates_completed") == tpl.len() as u64, report.get("templates_completed")),
         floor("class ok observed >= 1000x", report.get("class/ok") >= 1000, report.get("class/ok")),
         floor("class malformed observed >= 1000x", report.get("class/malformed") >= 1000, report.get("class/malformed")),
